@@ -196,9 +196,9 @@ Definition status_error (s : Z) (b : body X) : option err :=
 Lemma classify_spec : forall s (b : body X), fst (classify s b) = status_error s b.
 Proof.
   intros s b. unfold classify, status_error, class_of, read_all.
-  destruct (Z.geb_spec s 500), (Z.geb_spec s 400), (Z.geb_spec s 300), (Z.ltb_spec s 200),
-           (Z.leb_spec 200 s), (Z.ltb_spec s 300), (Z.leb_spec 400 s), (Z.ltb_spec s 500),
-           (Z.leb_spec 500 s); simpl; try reflexivity; lia.
+  rewrite !Z.geb_leb.
+  destruct (Z.leb_spec 500 s), (Z.leb_spec 400 s), (Z.leb_spec 300 s), (Z.ltb_spec s 200),
+           (Z.leb_spec 200 s), (Z.ltb_spec s 300), (Z.ltb_spec s 500); simpl; try reflexivity; lia.
 Qed.
 
 Lemma class_of_success : forall s, class_of s = Success <-> 200 <= s < 300.
@@ -237,9 +237,9 @@ Lemma classify_events : forall s (b : body X),
   snd (classify s b) = match class_of s with ClientError | ServerError => [BReadAll] | _ => [] end.
 Proof.
   intros s b. unfold classify, class_of.
-  destruct (Z.geb_spec s 500), (Z.geb_spec s 400), (Z.geb_spec s 300), (Z.ltb_spec s 200),
-           (Z.leb_spec 200 s), (Z.ltb_spec s 300), (Z.leb_spec 400 s), (Z.ltb_spec s 500),
-           (Z.leb_spec 500 s); simpl; try reflexivity; lia.
+  rewrite !Z.geb_leb.
+  destruct (Z.leb_spec 500 s), (Z.leb_spec 400 s), (Z.leb_spec 300 s), (Z.ltb_spec s 200),
+           (Z.leb_spec 200 s), (Z.ltb_spec s 300), (Z.ltb_spec s 500); simpl; try reflexivity; lia.
 Qed.
 
 (* ------------------------------------------------------------------ *)
@@ -523,6 +523,12 @@ Qed.
 (* ------------------------------------------------------------------ *)
 (* decimal printing: the message quotes the status faithfully           *)
 
+Local Arguments digit : simpl never.
+Local Arguments Z.pow : simpl never.
+Local Arguments Z.mul : simpl never.
+Local Arguments Z.div : simpl never.
+Local Arguments Z.modulo : simpl never.
+
 Definition is_digit_c (c : ascii) : bool := (48 <=? nat_of_ascii c)%nat && (nat_of_ascii c <=? 57)%nat.
 
 Fixpoint all_digits (s : string) : bool :=
@@ -554,6 +560,12 @@ Proof.
   intros d Hd. unfold is_digit_c, digit. rewrite nat_ascii_embedding by lia.
   apply andb_true_iff; split; [apply Nat.leb_le | apply Nat.leb_le]; lia.
 Qed.
+
+Lemma all_digits_single : forall c, is_digit_c c = true -> all_digits (String c "") = true.
+Proof. intros c H. simpl. rewrite H. reflexivity. Qed.
+
+Lemma undec_acc_single : forall c a, undec_acc (String c "") a = a * 10 + (Z.of_nat (nat_of_ascii c) - 48).
+Proof. reflexivity. Qed.
 
 Lemma undec_acc_app : forall s t acc, undec_acc (s ++ t) acc = undec_acc t (undec_acc s acc).
 Proof. induction s as [|c s IH]; simpl; intros; [reflexivity | apply IH]. Qed.
@@ -589,9 +601,11 @@ Proof.
     destruct (Z.eqb_spec (n / 10) 0) as [Hq|Hq].
     + assert (n = n mod 10) by (rewrite (Z.div_mod n 10) at 1 by lia; rewrite Hq; lia).
       split; [|split].
-      * simpl. rewrite digit_is_digit by assumption. reflexivity.
+      * apply all_digits_single, digit_is_digit; assumption.
       * discriminate.
-      * intros a0. simpl. rewrite digit_code by assumption. lia.
+      * intros a0. rewrite undec_acc_single, digit_code by assumption.
+        change (String.length (String (digit (n mod 10)) "")) with 1%nat.
+        change (Z.of_nat 1) with 1. rewrite Z.pow_1_r. lia.
     + assert (Hq0 : 0 < n / 10).
       { assert (0 <= n / 10) by (apply Z.div_pos; lia). lia. }
       assert (Hqlt : n / 10 < 2 ^ Z.of_nat f).
@@ -599,12 +613,17 @@ Proof.
         apply Z.div_lt_upper_bound; lia. }
       destruct (IH (n / 10) Hq0 Hqlt) as (Hd & Hne & Hval).
       rewrite dec_digits_acc. split; [|split].
-      * rewrite all_digits_app, Hd. simpl. rewrite digit_is_digit by assumption. reflexivity.
+      * rewrite all_digits_app, Hd. rewrite all_digits_single by (apply digit_is_digit; assumption). reflexivity.
       * intros H. apply append_nil_inv in H as [H _]. contradiction.
-      * intros a0. rewrite undec_acc_app, Hval. simpl.
+      * intros a0. rewrite undec_acc_app, Hval, undec_acc_single.
         rewrite digit_code by assumption.
-        rewrite slength_app. simpl. rewrite Nat2Z.inj_add. simpl (Z.of_nat 1).
-        rewrite Z.pow_add_r by lia. rewrite (Z.div_mod n 10) at 2 by lia. ring.
+        rewrite slength_app.
+        change (String.length (String (digit (n mod 10)) "")) with 1%nat.
+        rewrite Nat2Z.inj_add. change (Z.of_nat 1) with 1.
+        rewrite Z.pow_add_r by lia. rewrite Z.pow_1_r.
+        pose proof (Z.div_mod n 10 ltac:(lia)) as Hdm.
+        set (L := 10 ^ Z.of_nat (String.length (dec_digits f (n / 10) ""))) in *.
+        set (q := n / 10) in *. set (m := n mod 10) in *. rewrite Hdm. ring.
 Qed.
 
 Lemma log2_fuel : forall n, 0 < n -> n < 2 ^ Z.of_nat (S (Z.to_nat (Z.log2 n))).
@@ -695,3 +714,220 @@ Qed.
 Lemma unsupported_text_injective : forall s s',
   "not supported error " ++ dec s = "not supported error " ++ dec s' -> s = s'.
 Proof. intros s s' H. apply append_inj_prefix in H. apply dec_injective; assumption. Qed.
+
+(* ------------------------------------------------------------------ *)
+(* the same facts, stated on the literal pipeline [method_returns]      *)
+(* (cook_results + the semantics of the template's tail)                *)
+
+Section Literal.
+Variable V X : Type.
+Variable decode : string -> body X -> dec_out V X.
+
+Lemma method_returns_inv : forall rs o slots ev,
+  wf_results rs = true ->
+  method_returns decode rs o = inr (slots, ev) ->
+  accepted rs /\ slots = spec_returns V X decode rs o /\ ev = spec_events X rs o.
+Proof.
+  intros rs o slots ev Hwf H.
+  assert (Hacc : accepted rs).
+  { unfold method_returns in H. destruct (cook_results rs) as [f|c] eqn:Hc; [discriminate|].
+    apply cook_results_accepts in Hc; tauto. }
+  rewrite (method_returns_refines_spec V X decode rs o Hwf Hacc) in H. inversion H; auto.
+Qed.
+
+(* a client method exists exactly for the accepted signatures *)
+Lemma mr_exists_iff : forall rs o,
+  wf_results rs = true ->
+  ((exists res, method_returns decode rs o = inr res) <-> accepted rs).
+Proof.
+  intros rs o Hwf. split.
+  - intros ([slots ev] & H). apply method_returns_inv in H; tauto.
+  - intros Hacc. eexists. apply method_returns_refines_spec; assumption.
+Qed.
+
+Lemma mr_view : forall rs o slots ev,
+  wf_results rs = true -> method_returns decode rs o = inr (slots, ev) ->
+  exists rv, view slots = Some rv /\ (rv_result rv = None <-> declared_result rs = None).
+Proof.
+  intros rs o slots ev Hwf H. apply method_returns_inv in H as (Hacc & -> & _); auto.
+  apply returns_view; assumption.
+Qed.
+
+Lemma mr_nil_error_iff : forall rs o slots ev rv,
+  wf_results rs = true -> method_returns decode rs o = inr (slots, ev) -> view slots = Some rv ->
+  (rv_err rv = SNil <->
+   exists r, o = OResp r /\ 200 <= r_status r < 300 /\
+     match declared_result rs with
+     | None => True
+     | Some (ty, _) => forall x, snd (decode ty (r_body r)) <> Some (DOther x)
+     end).
+Proof.
+  intros rs o slots ev rv Hwf H Hv. apply method_returns_inv in H as (Hacc & -> & _); auto.
+  apply nil_error_iff; assumption.
+Qed.
+
+Lemma mr_client_error : forall rs r slots ev rv,
+  wf_results rs = true -> method_returns decode rs (OResp r) = inr (slots, ev) -> view slots = Some rv ->
+  400 <= r_status r < 500 ->
+  rv_err rv = SErr (EText ("client error " ++ dec (r_status r) ++ ": " ++ b_data (r_body r))) /\
+  rv_resp rv = SResp r /\ (rv_result rv = None \/ rv_result rv = Some SNil).
+Proof.
+  intros rs r slots ev rv Hwf H Hv Hs. apply method_returns_inv in H as (Hacc & -> & _); auto.
+  eapply status_error_returned; eauto.
+  unfold status_error. apply class_of_client in Hs. rewrite Hs. reflexivity.
+Qed.
+
+Lemma mr_server_error : forall rs r slots ev rv,
+  wf_results rs = true -> method_returns decode rs (OResp r) = inr (slots, ev) -> view slots = Some rv ->
+  500 <= r_status r ->
+  rv_err rv = SErr (EText ("server error " ++ dec (r_status r) ++ ": " ++ b_data (r_body r))) /\
+  rv_resp rv = SResp r /\ (rv_result rv = None \/ rv_result rv = Some SNil).
+Proof.
+  intros rs r slots ev rv Hwf H Hv Hs. apply method_returns_inv in H as (Hacc & -> & _); auto.
+  eapply status_error_returned; eauto.
+  unfold status_error. apply class_of_server in Hs. rewrite Hs. reflexivity.
+Qed.
+
+Lemma mr_unsupported : forall rs r slots ev rv,
+  wf_results rs = true -> method_returns decode rs (OResp r) = inr (slots, ev) -> view slots = Some rv ->
+  r_status r < 200 \/ 300 <= r_status r < 400 ->
+  rv_err rv = SErr (EText ("not supported error " ++ dec (r_status r))) /\
+  rv_resp rv = SResp r /\ (rv_result rv = None \/ rv_result rv = Some SNil).
+Proof.
+  intros rs r slots ev rv Hwf H Hv Hs. apply method_returns_inv in H as (Hacc & -> & _); auto.
+  eapply status_error_returned; eauto.
+  unfold status_error. apply class_of_unsupported in Hs. rewrite Hs. reflexivity.
+Qed.
+
+(* every status falls in exactly one class *)
+Lemma status_classes_partition : forall s : Z,
+  (200 <= s < 300 /\ ~ 400 <= s < 500 /\ ~ 500 <= s /\ ~ (s < 200 \/ 300 <= s < 400)) \/
+  (400 <= s < 500 /\ ~ 200 <= s < 300 /\ ~ 500 <= s /\ ~ (s < 200 \/ 300 <= s < 400)) \/
+  (500 <= s /\ ~ 200 <= s < 300 /\ ~ 400 <= s < 500 /\ ~ (s < 200 \/ 300 <= s < 400)) \/
+  ((s < 200 \/ 300 <= s < 400) /\ ~ 200 <= s < 300 /\ ~ 400 <= s < 500 /\ ~ 500 <= s).
+Proof. intros s. lia. Qed.
+
+Lemma mr_failure : forall rs st x slots ev,
+  wf_results rs = true -> method_returns decode rs (OFail st x) = inr (slots, ev) ->
+  slots = (repeat SNil (List.length rs - 1) ++ [SErr (EForeign x)])%list /\ ev = [] /\
+  forall rv, view slots = Some rv ->
+    rv_err rv = SErr (EForeign x) /\ rv_resp rv = SNil /\ (rv_result rv = None \/ rv_result rv = Some SNil).
+Proof.
+  intros rs st x slots ev Hwf H. apply method_returns_inv in H as (Hacc & -> & ->); auto.
+  split; [reflexivity|]. split; [reflexivity|]. intros rv Hv.
+  eapply fail_view; eauto.
+Qed.
+
+Lemma mr_response_always : forall rs r slots ev rv,
+  wf_results rs = true -> method_returns decode rs (OResp r) = inr (slots, ev) -> view slots = Some rv ->
+  rv_resp rv = SResp r.
+Proof.
+  intros rs r slots ev rv Hwf H Hv. apply method_returns_inv in H as (Hacc & -> & _); auto.
+  eapply response_always_returned; eauto.
+Qed.
+
+Lemma mr_error_nil_result : forall rs o slots ev rv,
+  wf_results rs = true -> method_returns decode rs o = inr (slots, ev) -> view slots = Some rv ->
+  rv_err rv <> SNil -> rv_result rv = None \/ rv_result rv = Some SNil.
+Proof.
+  intros rs o slots ev rv Hwf H Hv Hne. apply method_returns_inv in H as (Hacc & -> & _); auto.
+  eapply error_means_nil_result; eauto.
+Qed.
+
+Lemma mr_success : forall rs r ty p v de slots ev,
+  wf_results rs = true -> method_returns decode rs (OResp r) = inr (slots, ev) ->
+  200 <= r_status r < 300 -> declared_result rs = Some (ty, p) ->
+  decode ty (r_body r) = (v, de) -> (forall x, de <> Some (DOther x)) ->
+  slots = [if p then SAddr v else SVal v; SResp r; SNil].
+Proof.
+  intros rs r ty p v de slots ev Hwf H Hs Hd Hdec Hok.
+  apply method_returns_inv in H as (Hacc & -> & _); auto.
+  eapply success_returns; eauto.
+Qed.
+
+Lemma mr_success_no_result : forall rs r slots ev,
+  wf_results rs = true -> method_returns decode rs (OResp r) = inr (slots, ev) ->
+  200 <= r_status r < 300 -> declared_result rs = None ->
+  slots = [SResp r; SNil].
+Proof.
+  intros rs r slots ev Hwf H Hs Hd. apply method_returns_inv in H as (Hacc & -> & _); auto.
+  apply success_no_result; assumption.
+Qed.
+
+(* an empty body yields the zero value, given json's behaviour on an empty stream *)
+Lemma mr_empty_body : forall (zero : string -> V) rs r ty p slots ev,
+  (forall t, decode t {| b_data := ""; b_fault := None |} = (zero t, Some DEof)) ->
+  wf_results rs = true -> method_returns decode rs (OResp r) = inr (slots, ev) ->
+  200 <= r_status r < 300 -> declared_result rs = Some (ty, p) ->
+  r_body r = {| b_data := ""; b_fault := None |} ->
+  slots = [if p then SAddr (zero ty) else SVal (zero ty); SResp r; SNil].
+Proof.
+  intros zero rs r ty p slots ev Hlaw Hwf H Hs Hd Hb.
+  apply (mr_success rs r ty p (zero ty) (Some DEof) slots ev); auto.
+  - rewrite Hb. apply Hlaw.
+  - intros x; discriminate.
+Qed.
+
+Lemma mr_decode_error : forall rs r ty p v x slots ev,
+  wf_results rs = true -> method_returns decode rs (OResp r) = inr (slots, ev) ->
+  200 <= r_status r < 300 -> declared_result rs = Some (ty, p) ->
+  decode ty (r_body r) = (v, Some (DOther x)) ->
+  slots = [SNil; SResp r; SErr (EForeign x)].
+Proof.
+  intros rs r ty p v x slots ev Hwf H Hs Hd Hdec.
+  apply method_returns_inv in H as (Hacc & -> & _); auto.
+  eapply decode_error_returns; eauto.
+Qed.
+
+Lemma mr_arity : forall rs o slots ev,
+  wf_results rs = true -> single_names rs = true ->
+  method_returns decode rs o = inr (slots, ev) ->
+  List.length slots = declared_arity rs.
+Proof.
+  intros rs o slots ev Hwf Hsn H. apply method_returns_inv in H as (Hacc & -> & _); auto.
+  rewrite declared_arity_single by assumption. apply returns_length; assumption.
+Qed.
+
+Lemma mr_body_closed_once : forall rs r slots ev,
+  wf_results rs = true -> method_returns decode rs (OResp r) = inr (slots, ev) ->
+  exists pre, ev = (pre ++ [BClose])%list /\ ~ In BClose pre.
+Proof.
+  intros rs r slots ev Hwf H. apply method_returns_inv in H as (_ & _ & ->); auto.
+  apply events_close_last.
+Qed.
+
+Lemma mr_rejected : forall rs o, ~ accepted rs -> exists f, method_returns decode rs o = inl f.
+Proof. intros. apply method_returns_rejected; assumption. Qed.
+
+End Literal.
+
+(* ------------------------------------------------------------------ *)
+(* witnesses: signatures the generator accepts but cannot serve          *)
+
+Definition resp_field : field := {| f_names := []; f_type := TStar (TSel "http" "Response") |}.
+Definition err_field : field := {| f_names := []; f_type := TIdent "error" |}.
+
+(* K_rest_array_result: ([2]int, *http.Response, error) *)
+Definition array_witness : list field :=
+  [{| f_names := []; f_type := TArray (Some "2") (TIdent "int") |}; resp_field; err_field].
+
+Lemma array_result_refuted :
+  exists rs c, wf_results rs = true /\ single_names rs = true /\ cook_results rs = inr c /\
+               result_type_nilable rs = false.
+Proof. exists array_witness. eexists. repeat split; reflexivity. Qed.
+
+(* K_rest_multi_name_result: (a, b *http.Response, err error) -- two FIELDS, three values *)
+Definition multi_name_witness : list field :=
+  [{| f_names := ["a"; "b"]; f_type := TStar (TSel "http" "Response") |};
+   {| f_names := ["err"]; f_type := TIdent "error" |}].
+
+Lemma multi_name_refuted : forall V X (decode : string -> body X -> dec_out V X) o,
+  exists rs slots ev, wf_results rs = true /\ method_returns decode rs o = inr (slots, ev) /\
+                      List.length slots <> declared_arity rs.
+Proof.
+  intros V X decode o. exists multi_name_witness.
+  destruct o as [st x|r].
+  - eexists; eexists. split; [reflexivity|]. split; [reflexivity|]. simpl. discriminate.
+  - unfold method_returns; simpl. destruct (classify (r_status r) (r_body r)) as [[e|] ev];
+      eexists; eexists; (split; [reflexivity|]; split; [reflexivity|]; simpl; discriminate).
+Qed.
